@@ -294,7 +294,7 @@ func c19Compare(base, got []c19Result, src *c19Src, path byte) (key, detail stri
 		// fi.Read/readTrailer, I/O errors included
 		return "C19-makereader-trailer-io-error-swallowed", key + ": " + detail
 	case src.hitPeekShort:
-		// finding ROB-1 (see rob_scan.go)
+		// former finding ROB-1, fixed as D33 (see rob_scan.go); kept as a regression detector
 		return "C19-peekn-short-read-error-swallowed", key + ": " + detail
 	}
 	return
